@@ -445,6 +445,23 @@ func c01Aliases(c int64, n int64) []int64 {
 
 var c01Mid = mkFile(seqBytes(40, 9), 1)
 
+// c01LapseEnum: fixed histories deeper than the search goes - three provers join, one of them asks for an attestation
+// form that nobody (or one provider short of the quorum) signs, and then nobody proves for seven blocks: the stale-
+// prover clause of the block step must find every one of them struck off, form or no form.
+func c01LapseEnum() mc.Enum {
+	joins := []string{"Proof:P1:f1:valid", "Proof:P2:f1:valid", "Proof:P3:f1:valid"}
+	nb := rep("NextBlock", 7)
+	return pathEnum("C01", "C01/lapse-paths", C01{}, [][]string{
+		cat(joins, nb),
+		cat(joins, []string{"AttReq:P1"}, nb),
+		cat(joins, []string{"AttReq:P3"}, nb),
+		cat(joins, []string{"AttReq:P1", "Attest:P2:P1"}, nb),
+		cat(joins, []string{"AttReq:P1", "Attest:P3:P1"}, nb),
+		cat(joins, []string{"NextBlock", "NextBlock", "AttReq:P1"}, nb),
+		cat(joins, []string{"AttReq:P1", "AttReq:P3", "Attest:P2:P1", "Attest:P2:P3"}, nb),
+	})
+}
+
 func c01OtherChunkEnum() mc.Enum {
 	ae := c01AliasEnum()
 	e := mc.Enum{Prop: "C01", Name: "C01/other-chunk", Cfg: ae.Cfg, Setup: ae.Setup, ConfirmB: true, ConfB: 1}
@@ -575,6 +592,7 @@ func c01AliasEnum() mc.Enum {
 func init() {
 	CaseReplayers["C01/index-aliasing"] = func(r *mc.Run, c string) { r.ReplayCase(c01AliasEnum(), c) }
 	CaseReplayers["C01/other-chunk"] = func(r *mc.Run, c string) { r.ReplayCase(c01OtherChunkEnum(), c) }
+	CaseReplayers["C01/lapse-paths"] = func(r *mc.Run, c string) { r.ReplayCase(c01LapseEnum(), c) }
 	regScenario(C01{})
 	regScenario(C01{Two: true})
 	Props["C01"] = Prop{Level: "model_checking", Run: func(r *mc.Run, tier string) {
@@ -587,5 +605,7 @@ func init() {
 		r.AddEnum(c01AliasEnum(), workers(), time.Now().Add(10*time.Minute))
 		r.Rules = append(r.Rules, "other-chunk enumeration: a 40-chunk file; for every index the chain challenges the prover with (the honest prover keeps proving until all 40 have come up), the content and hash list of each of the 39 other chunks is submitted for that index and must be rejected without any change")
 		r.AddEnum(c01OtherChunkEnum(), workers(), time.Now().Add(10*time.Minute))
+		r.Rules = append(r.Rules, "lapse paths: 7 fixed histories of 10-14 steps (three provers join; attestation forms requested and left unsigned or one signature short; then seven blocks in which nobody proves), every step judged by the same oracle as the search")
+		r.AddEnum(c01LapseEnum(), workers(), time.Time{})
 	}}
 }
